@@ -2,11 +2,13 @@
 from lib.verif import *
 
 THEOREMS = [
-    "C06_store_exact", "C06_producer_accepted", "C06_reject_inconsistent",
+    "C06_store_exact", "C06_store_stable", "C06_producer_accepted",
+    "C06_reject_inconsistent", "C06_accept_criterion", "C06_leaf_unchecked",
     "C06_bounded", "C06_codec_roundtrip",
 ]
 MODULE = "LV.Shachain.Props"
-TARGETS = ["theories/Shachain/Props.vo", "theories/Shachain/Exec.vo"]
+TARGETS = ["theories/Shachain/Props.vo", "theories/Shachain/Exec.vo",
+           "theories/Shachain/Examples.vo"]
 WARM = [{"pkg": "shachain", "files": ["shachain/verif_store_test.go"]}]
 IMPORTS = ("From Coq Require Import List NArith.\nImport ListNotations.\n"
            "From LV Require Import Shachain.Exec.\n")
@@ -29,100 +31,232 @@ def op_term(o):
     raise ValueError(k)
 
 
-def predicate(case):
-    """Property predicate evaluated on the IMPLEMENTATION's trace alone:
-    every accepted secret is reproduced exactly by every later lookup; at
-    most 49 values stored.  Returns list of failure strings."""
-    fails = []
-    if case["nbuckets"] > 49:
-        fails.append("stores %d values" % case["nbuckets"])
-    ops = case["ops"]
-    accepted = {}
-    k = None
-    base = 0
-    # position after an optional initial load
+START = 2 ** 48 - 1
+
+
+def _ctz(i):
+    z = 0
+    while z < 48 and (i >> z) & 1 == 0:
+        z += 1
+    return z
+
+
+def _flip_hash(hexh, b):
+    import hashlib
+    buf = bytearray(bytes.fromhex(hexh))
+    buf[b // 8] ^= 1 << (b % 8)
+    return hashlib.sha256(bytes(buf)).hexdigest()
+
+
+def _decode(hexenc):
+    """(nbuckets, [(idx, hashhex)], index) of a serialized store."""
     import struct
+    enc = bytes.fromhex(hexenc)
+    n = enc[0]
+    bks = []
+    for i in range(n):
+        o = 1 + 40 * i
+        bks.append((struct.unpack(">Q", enc[o:o + 8])[0], enc[o + 8:o + 40].hex()))
+    return n, bks, struct.unpack(">Q", enc[1 + 40 * n:1 + 40 * n + 8])[0], len(enc)
+
+
+def _bucket_index(idx, b):
+    """smallest index > idx with exactly b trailing zeros (None if > START)."""
+    step = 1 << b
+    cand = ((idx + 1) + step - 1) & ~(step - 1)
+    if (cand >> b) & 1 == 0:
+        cand += step
+    return cand if cand <= START else None
+
+
+def predicate(case):
+    """Property predicates evaluated on the IMPLEMENTATION's trace alone
+    (python + hashlib, independent of the Coq model):
+      exact      every accepted secret is returned by every later lookup
+      producer   a clean producer sequence is never rejected, lookups = producer
+      criterion  an offered secret is accepted iff sha256(flip_b(h)) equals the
+                 secret received 2^b steps earlier for all b < ctz(index)
+                 (C06_accept_criterion / C06_reject_inconsistent)
+      bounded    <= 48 buckets (49 values), encoding = 9 + 40*n bytes
+      codec      every encoding holds, per bucket b, the most recent index with
+                 exactly b trailing zeros together with its accepted secret
+    Returns list of failure strings."""
+    fails = []
+    if case["nbuckets"] > 48:
+        fails.append("stores %d buckets" % case["nbuckets"])
+    if case.get("exh_bad"):
+        fails.append("exhaustive sweep: lookup != producer at (k,v)=%s" % case["exh_bad"][:3])
+    ops = case["ops"]
+    known = {}          # index -> secret hex the store accepted / was loaded with
+    base = 0
     for o in ops:
         if o[0] == "load":
-            enc = bytes.fromhex(o[1])
-            base = (2 ** 48 - 1) - struct.unpack(">Q", enc[-8:])[0]
+            if not o[2]:
+                fails.append("a store encoding produced by the node itself failed to decode")
+                continue
+            n, bks, idx, _ = _decode(o[1])
+            base = START - idx
+            for (bi, bh) in bks:
+                known[bi] = bh
     k = base
     prod = {}
+    clean = case["kind"] != "corrupt"
     for o in ops:
         if o[0] == "prod":
             prod[o[2]] = o[3]
-        elif o[0] == "add" and o[2]:
-            accepted[k] = o[1]
-            k += 1
+            if o[2] <= START and o[3] is None:
+                fails.append("producer failed at index %d inside the 48-bit index space" % o[2])
+            if o[2] > START and o[3] is not None:
+                fails.append("producer answered index %d beyond the index space" % o[2])
+        elif o[0] == "add":
+            idx = START - k
+            exp = True
+            undecided = False
+            for b in range(_ctz(idx)):
+                prev = known.get(idx + (1 << b))
+                if prev is None:
+                    undecided = True
+                elif _flip_hash(o[1], b) != prev:
+                    exp = False
+            if not undecided and exp != o[2]:
+                fails.append("add #%d (index ...%s, %d trailing zeros): implementation %s, "
+                             "derivation criterion says %s" %
+                             (k, bin(idx)[-6:], _ctz(idx), "accepted" if o[2] else "rejected",
+                              "accept" if exp else "reject"))
+            if clean and not o[2]:
+                fails.append("producer secret #%d rejected" % k)
+            if o[2]:
+                known[idx] = o[1]
+                k += 1
         elif o[0] == "lookup":
             v, res = o[1], o[2]
-            if v in accepted and res != accepted[v]:
-                fails.append("lookup %d returned %s, accepted secret was %s" % (v, res, accepted[v]))
-            if v >= k and res is not None and case["kind"] != "corrupt":
+            if v <= START and (START - v) in known and v >= base and res != known[START - v]:
+                fails.append("lookup %d returned %s, accepted secret was %s" % (v, res, known[START - v]))
+            if v >= k and res is not None and clean:
                 fails.append("lookup %d beyond the %d received secrets succeeded" % (v, k))
-            if v < base and case["kind"] == "far" and v in prod and res != prod[v]:
+            if clean and v < k and v in prod and res != prod[v]:
                 fails.append("lookup %d differs from producer" % v)
+            if clean and v < k and res is None:
+                fails.append("lookup %d of a received secret failed" % v)
+        elif o[0] == "encdec":
+            n, bks, idx, ln = _decode(o[1])
+            if ln != 9 + 40 * n or n > 48:
+                fails.append("encoding of %d buckets has %d bytes" % (n, ln))
+            if idx != START - k:
+                fails.append("encoded index %d after %d secrets" % (idx, k))
+            for b, (bi, bh) in enumerate(bks):
+                want = _bucket_index(idx, b)
+                if want is None or bi != want:
+                    fails.append("encoded bucket %d holds index %d, most recent with %d trailing "
+                                 "zeros is %s" % (b, bi, b, want))
+                elif want in known and known[want] != bh:
+                    fails.append("encoded bucket %d holds a secret that was never accepted" % b)
+            nb = 0
+            for b in range(48):
+                if _bucket_index(idx, b) is not None:
+                    nb = b + 1
+            if nb != n:
+                fails.append("encoded %d buckets, %d are in use after %d secrets" % (n, nb, k))
+    if case.get("k") is not None and case["k"] != k:
+        fails.append("harness counted %d accepted secrets, trace has %d" % (case["k"], k))
     return fails
 
 
 def run(ctx):
     pr = ctx.proof_stage(MODULE, THEOREMS, TARGETS, extra_trusted=[
-        "hash function and bit flip are Section variables: theorems hold for any hash; "
-        "execution instantiates Common/Sha256.v (checked against crypto/sha256 by the harness)"])
+        "hash function H, bit flip and hash_eqb are universally quantified in every theorem; the "
+        "only hypothesis is `forall a b, hash_eqb a b = true <-> a = b` (Go compares [32]byte "
+        "arrays), shown satisfiable by Examples.hash_eqb_hypothesis_satisfied; execution "
+        "instantiates Common/Sha256.v (checked against crypto/sha256 by the harness)",
+        "guard of every theorem: number of received secrets <= 2^48-1 (at index 0 the Go array "
+        "[48]element would be indexed at 48 and panic; not modelled)"])
     rc, trace, out = run_harness(ctx.uid(), "shachain", ["shachain/verif_store_test.go"],
-                                 "^TestVerifShachain$", timeout=900)
+                                 "^TestVerifShachain$", timeout=1500)
     rows = read_jsonl(trace)
     if rc != 0 or not rows:
         ctx.violation("harness_failed", "TestVerifShachain", {"log": out[-4000:]},
                       signature="harness", failing_input=False)
         return
-    # implementation-side predicate
+    # implementation-side predicates
     nfail = 0
+    pred_kinds = {}
     for c in rows:
         f = predicate(c)
         if f:
             nfail += 1
-            ctx.violation("impl_violates_predicate", "C06_store_exact", {"case": c, "fails": f},
-                          signature="shachain case kind=%s %s" % (c["kind"], f[0]))
-            if nfail > 3:
-                break
+            key = f[0].split(" ")[0]
+            pred_kinds[key] = pred_kinds.get(key, 0) + 1
+            if nfail <= 3:
+                small = dict(c)
+                if len(small["ops"]) > 400:
+                    small["ops"] = small["ops"][:400] + [["...truncated", len(c["ops"])]]
+                ctx.violation("impl_violates_predicate", "C06_store_exact/C06_accept_criterion/"
+                              "C06_bounded/C06_codec_roundtrip",
+                              {"case": small, "fails": f[:10]},
+                              signature="shachain case kind=%s %s" % (c["kind"], f[0]))
     # correspondence
-    terms = [clist([op_term(o) for o in c["ops"]]) for c in rows]
-    ok, bad, logs = coq_mismatches(ctx.uid(), IMPORTS, terms, shard=max(8, len(terms) // NCPU + 1))
-    if not ok:
-        ctx.violation("correspondence_mismatch", "Shachain.Exec (model evaluation failed)",
-                      {"logs": logs}, signature="model-eval", failing_input=False)
-    for ci, opsidx in bad[:3]:
-        c = rows[ci]
+    small_rows = [c for c in rows if c["kind"] != "exh"]
+    big_rows = [c for c in rows if c["kind"] == "exh"]
+    bad_all = []
+    for part, shard, tag in ((small_rows, max(8, len(small_rows) // (2 * NCPU) + 1), ""),
+                             (big_rows, 1, "x")):
+        if not part:
+            continue
+        terms = [clist([op_term(o) for o in c["ops"]]) for c in part]
+        ok, bad, logs = coq_mismatches(ctx.uid(tag), IMPORTS, terms, shard=shard, timeout=3000)
+        if not ok:
+            ctx.violation("correspondence_mismatch", "Shachain.Exec (model evaluation failed)",
+                          {"logs": logs}, signature="model-eval", failing_input=False)
+        for ci, opsidx in bad:
+            bad_all.append((part[ci], opsidx))
+    for c, opsidx in bad_all[:3]:
+        first = opsidx[0]
         ctx.violation("correspondence_mismatch", "Shachain.Exec.check_case",
-                      {"case": c, "disagreeing_ops": [c["ops"][i] for i in opsidx[:5]],
-                       "op_indices": opsidx},
-                      signature="shachain mismatch", failing_input=bool(predicate(c)))
+                      {"case_id": c["case"], "kind": c["kind"], "k": c["k"],
+                       "ops_up_to_first_disagreement": c["ops"][max(0, first - 60):first + 1],
+                       "disagreeing_ops": [c["ops"][i] for i in opsidx[:5]],
+                       "op_indices": opsidx[:50]},
+                      signature="shachain mismatch", failing_input=True)
     if not pr["ok"] and not ctx.violations:
         ctx.violation("proof_broken", ", ".join(pr["broken"]) or "Shachain build",
                       {"log": pr["log"][-4000:]}, signature="proof", failing_input=False)
+    if ctx.thorough:
+        okc, outc = ctx.coqchk(["LV.Shachain.Props"])
+        if not okc:
+            ctx.violation("proof_broken", "coqchk LV.Shachain.Props", {"log": outc[-3000:]},
+                          signature="coqchk", failing_input=False)
     kinds = {}
     nops = 0
     opk = {}
+    khist = {}
     for c in rows:
         kinds[c["kind"]] = kinds.get(c["kind"], 0) + 1
         nops += len(c["ops"])
+        kb = "k<2^%d" % (int(c["k"]).bit_length())
+        khist[kb] = khist.get(kb, 0) + 1
         for o in c["ops"]:
-            key = o[0] + ("" if o[0] not in ("add", "lookup") else
-                          (":ok" if (o[2] if o[0] == "add" else o[2] is not None) else ":err"))
+            key = o[0] + ("" if o[0] not in ("add", "lookup", "prod") else
+                          (":ok" if (o[2] if o[0] == "add" else o[-1] is not None) else ":err"))
             opk[key] = opk.get(key, 0) + 1
     ctx.cov.update({
         "evaluations": len(rows),
         "distinct_nontrivial": distinct_count([c for c in rows if len(c["ops"]) > 3],
                                               lambda c: c["ops"]),
         "rule": "seeded op sequences (producer, add incl. corrupted/replayed/shifted secrets, "
-                "lookup, encode->decode->continue, far start positions via the codec); "
-                "non-trivial = more than 3 ops; distinct by full op list",
+                "lookup incl. power-of-two neighbours and indices beyond 2^48, "
+                "encode->decode->continue, far start positions via the codec; thorough: all "
+                "k < 1024 exhaustively from 3 roots); non-trivial = more than 3 ops; distinct "
+                "by full op list",
         "traces_validated_against_impl": len(rows),
-        "ops_total": nops, "case_kinds": kinds, "op_kinds": opk,
+        "ops_total": nops, "case_kinds": kinds, "op_kinds": opk, "k_histogram": khist,
         "max_k": max(c["k"] for c in rows),
+        "predicate_failures": pred_kinds,
+        "exhaustive_lookups_checked_in_impl": sum(c.get("exh_checked", 0) for c in rows),
         "samples": [rows[0]["ops"][:6]],
-        "correspondence_mismatches": len(bad),
+        "correspondence_mismatches": len(bad_all),
     })
     ctx.assumptions += ["SHA-256 modelled in Gallina (Common/Sha256.v), tied by OSha samples",
-                        "release-rule conjunct (C06b) is decided on the Channel model: see C02"]
+                        "release-rule conjunct (C06b) is decided on the Channel model: see C02",
+                        "C06_reject_inconsistent is the precise true form of 'rejects any "
+                        "inconsistent secret': a secret at an index without trailing zeros is "
+                        "never checked (C06_leaf_unchecked)"]
